@@ -853,6 +853,26 @@ def sum_axioms(terms, rounds=1, done=None, signs=True, pairs=True):
             done.add(y.get_id())
             done.add(("nopair", y.get_id()))
     apps = apps + [x for x in extra_apps if all(x.get_id() != a_.get_id() for a_ in apps)]
+    # sum_split_last: two applications of the same definition with the same parameters whose upper bounds
+    # differ by one:  S(lo, t+1) == S(lo, t) + body(t)   for lo <= t
+    byd = {}
+    for a in apps:
+        byd.setdefault(a.decl().get_id(), []).append(a)
+    for grp in byd.values():
+        for a in grp:
+            for c in grp:
+                if a.get_id() == c.get_id():
+                    continue
+                key = ("step", a.get_id(), c.get_id())
+                if key in done:
+                    continue
+                done.add(key)
+                if not a.arg(0).eq(c.arg(0)) or any(not x.eq(y) for x, y in zip(a.children()[2:], c.children()[2:])):
+                    continue
+                d_ = z3.simplify(a.arg(1) - c.arg(1))
+                if z3.is_int_value(d_) and d_.as_long() == 1:
+                    dd = SumDef.registry[a.decl().get_id()]
+                    ax.append(z3.Implies(c.arg(0) <= c.arg(1), a == c + dd.body_at(c, c.arg(1))))
     pairable = [a for a in apps if ("nopair", a.get_id()) not in done] if pairs else []
     for i, a in enumerate(pairable):
         for c in pairable[i + 1:]:
